@@ -30,8 +30,11 @@ pub struct Ops {
 }
 
 pub fn mk_ops(rng: &mut Rng, mlen: usize) -> Ops {
-    let key: [u8; 32] = rng.arr();
-    let nonce: [u8; 24] = rng.arr();
+    // mostly random operands; now and then the extreme keys, nonces and messages (all-zero, all-0xff, a nonce whose
+    // second half - the XSalsa20 stream nonce - is all-0xff)
+    let pat = rng.below(12);
+    let key: [u8; 32] = match pat { 0 => [0u8; 32], 1 => [0xffu8; 32], _ => rng.arr() };
+    let nonce: [u8; 24] = match pat { 2 => [0u8; 24], 3 => [0xffu8; 24], 4 => { let mut n: [u8; 24] = rng.arr(); for b in n[16..].iter_mut() { *b = 0xff; } n }, _ => rng.arr() };
     let n1 = 1 + rng.below(40) as usize;
     let s1 = rng.bytes(n1);
     let s2 = rng.bytes(32);
@@ -43,7 +46,8 @@ pub fn mk_ops(rng: &mut Rng, mlen: usize) -> Ops {
         so::crypto_box_beforenm(pre_s.as_mut_ptr(), rpk.as_ptr(), ssk.as_ptr());
         so::crypto_box_beforenm(pre_r.as_mut_ptr(), spk.as_ptr(), rsk.as_ptr());
     }
-    Ops { key, nonce, spk, ssk, rpk, rsk, pre_s, pre_r, msg: rng.bytes(mlen) }
+    let msg = match pat { 5 => vec![0u8; mlen], 6 => vec![0xffu8; mlen], _ => rng.bytes(mlen) };
+    Ops { key, nonce, spk, ssk, rpk, rsk, pre_s, pre_r, msg }
 }
 
 pub type EncFn = fn(&Ops) -> Result<Vec<u8>, String>;
